@@ -430,6 +430,18 @@ class RealMachine(LogMachine):
             if not deep_equal(got, tv, rtol=1e-7, arel=1e-9):
                 raise Violation('value-belongs-to-this-object', f'{kind}.{name}{args} differs from the value a pristine twin gives (the same object derived again from the raw data, sharing nothing with the objects of this history; system {k}, {len(self.live)} live objects)')
             del twin, tv
+        if name == 'to_graph' and not isinstance(got, Raised) and not kw and not a:
+            # bounds that sit exactly on an edge's activation energy and one representable number beside it: two different arguments,
+            # two different graphs - an entry made for one must never answer the other
+            es = sorted({float(d_['e_act']) for _, _, d_ in got.edges(data=True) if np.isfinite(d_['e_act']) and d_['e_act'] != 0})
+            if es:
+                e0 = es[(m + ai) % len(es)]
+                for bound in (e0, float(np.nextafter(e0, -np.inf)), float(np.nextafter(e0, np.inf)), e0):
+                    for key_ in ('max_e_act', 'min_e_act'):
+                        gc_ = gcall(meth, **{key_: bound}, allow=ALLOW)
+                        gu_ = gcall(getattr(type(o), name).__wrapped__, o, **{key_: bound}, allow=ALLOW)
+                        if not deep_equal(gc_, gu_):
+                            raise Violation('cached-equals-uncached', f'{kind}.to_graph({key_}={bound!r}) (an edge has activation energy {e0!r}): cached graph differs from an uncached recomputation; edges {sorted(gc_.edges) if hasattr(gc_, "edges") else gc_} vs {sorted(gu_.edges) if hasattr(gu_, "edges") else gu_}')
         if name == 'jump_diffusivity' and not isinstance(got, Raised):
             # independent of every cache in the library: the defining formula on this object's own table and sites
             Mx = np.array(o.trajectory.get_lattice().matrix, float)
